@@ -228,7 +228,7 @@ Definition out_tuple (q : quirks) (dry : bool) (ifx d f : option val) (p : path)
       match word_of wb with
       | None => Err s
       | Some w =>
-          if (match w with WMerge => isSome f | _ => false end) then Err s else
+          if (precheck q w d f) then Err s else
           let (sr, s1) := op_stat p s in
           match sr with
           | SFault => Err s1
@@ -367,7 +367,7 @@ Proof.
   - unfold out_dirv. apply R_bind. apply inv_do_dir; auto. intros. apply inv_loop; auto.
   - unfold out_tuple. destruct ifx as [conf|]; [|apply inv_files; auto].
     destruct conf; try apply R_refl. destruct (word_of b) as [w|]; [|apply R_refl].
-    destruct (match w with WMerge => isSome f | _ => false end); [apply R_refl|].
+    destruct (precheck q w d f); [apply R_refl|].
     pose proof (R_stat p s) as HS. destruct (op_stat p s) as [sr s1]. simpl in HS.
     destruct sr as [[[?|]| |]|]; try exact HS.
     + eapply R_trans; [exact HS|]. apply inv_existing; auto.
@@ -600,7 +600,7 @@ Proof.
   - unfold out_dirv. apply okfired_bind. apply do_dir_fired. intros. apply loop_fired; auto.
   - unfold out_tuple. destruct ifx as [conf|]; [|apply files_fired; auto].
     destruct conf; try apply okfired_err. destruct (word_of b) as [w|]; [|apply okfired_err].
-    destruct (match w with WMerge => isSome f | _ => false end); [apply okfired_err|].
+    destruct (precheck q w d f); [apply okfired_err|].
     pose proof (stat_fired p s) as HS. destruct (op_stat p s) as [sr s1]. simpl in HS.
     destruct sr as [[[?|]| |]|]; try apply okfired_err.
     + intros s' E. rewrite <- HS. apply (existing_fired dry w d f p s1 H H0 s' E).
@@ -853,7 +853,7 @@ Proof.
   - apply main_dirv; auto. intros es' [= <-]. exact H.
   - destruct Wv as [Wd Wf]. unfold out_tuple. destruct ifx as [conf|]; [|apply main_files; auto].
     destruct conf; try discriminate. destruct (word_of b) as [w|]; [|discriminate].
-    destruct (match w with WMerge => isSome f | _ => false end); [discriminate|].
+    destruct (precheck off w d f); [discriminate|].
     destruct (sim_stat _ _ _ _ S) as [E0 E]. pose proof S as [F0 F _ _ _ _ _].
     rewrite (op_stat_nf _ _ F0), (op_stat_nf _ _ F), E0, E.
     pose proof (sim_tk _ _ _ _ S) as S'.
@@ -898,7 +898,7 @@ Qed.
 Definition cfg (w : bytes) (d f : option val) : val := VTup (Some (VStr w)) d f.
 
 Lemma tuple_stat w wd d f dry p s : fault s = None -> word_of w = Some wd ->
-  (match wd with WMerge => isSome f | _ => false end) = false ->
+  precheck off wd d f = false ->
   out off REntry dry (cfg w d f) p s =
     match stat (fs s) p with
     | SNotDir => Err (tk s)
@@ -947,7 +947,7 @@ Lemma rule_merge dv p s n : fault s = None -> stat (fs s) p = SNode n ->
 Proof. intros F S. rewrite (tuple_stat _ WMerge) by auto. rewrite S. unfold out_existing. rewrite out_RDir. reflexivity. Qed.
 
 Lemma rule_absent w wd d f p s : fault s = None -> stat (fs s) p = SNoEnt -> word_of w = Some wd -> wd <> WRemove ->
-  (match wd with WMerge => isSome f | _ => false end) = false ->
+  precheck off wd d f = false ->
   out off REntry false (cfg w d f) p s = out off REntry false (VTup None d f) p (tk s).
 Proof.
   intros F S Hw N Hm. rewrite (tuple_stat _ wd) by auto. rewrite S. rewrite (out_REntry _ _ (VTup None d f)). unfold out_tuple.
